@@ -29,6 +29,7 @@ type c10Ev struct {
 	C   tk.EPConfig `json:"c,omitempty"`
 	S   tk.EPConfig `json:"s,omitempty"`
 	Cap int         `json:"cap,omitempty"`
+	Len int         `json:"len,omitempty"` // forge: length of the forged identifier (0: 32); any length up to 32 is a legal opaque<0..32>
 }
 
 type c10Input struct {
@@ -88,7 +89,11 @@ func c10AddCase(out *emit.Out, scenario string, in c10Input) {
 			}
 			coqEvs = append(coqEvs, fmt.Sprintf("HLoss %d %d%%nat", e.Srv, in.SCap))
 		case "forge":
-			id := make([]byte, 32)
+			n := e.Len
+			if n <= 0 || n > 32 {
+				n = 32
+			}
+			id := make([]byte, n)
 			rand.Read(id)
 			numbers[hex.EncodeToString(id)] = next
 			next++
@@ -245,6 +250,7 @@ func runC10(p params) error {
 			"insecure-then-verifying": {conn(1, both, both, "cli", 0, "wrong.test", true), conn(1, both, both, "cli", 0, "wrong.test", true), conn(1, both, both, "cli", 0, "wrong.test", false), conn(1, both, both, "cli", 0, "server.test", false)},
 			"server-cache-lost":       {ok(1), {K: "loss", Srv: 1}, ok(1), ok(1)},
 			"forged-identifier":       {ok(1), {K: "forge", Srv: 1}, ok(1), ok(1)},
+			"forged-short-identifier": {ok(1), {K: "forge", Srv: 1, Len: 16}, ok(1), {K: "forge", Srv: 1, Len: 1}, ok(1), {K: "forge", Srv: 1, Len: 31}, ok(1), {K: "forge", Srv: 1, Len: 8}, ok(1)},
 			"three-servers-capacity":  {ok(1), ok(2), ok(3), ok(1), ok(2), ok(3), ok(3), ok(1)},
 		}
 		names := make([]string, 0, len(corpus))
@@ -277,7 +283,7 @@ func runC10(p params) error {
 			case x < 2:
 				in.Evs = append(in.Evs, c10Ev{K: "loss", Srv: 1 + r.IntN(3)})
 			case x < 3:
-				in.Evs = append(in.Evs, c10Ev{K: "forge", Srv: 1 + r.IntN(3)})
+				in.Evs = append(in.Evs, c10Ev{K: "forge", Srv: 1 + r.IntN(3), Len: []int{32, 32, 16, 1, 31, 8}[r.IntN(6)]})
 			case x < 5: // reconfigure something for the rest of the history
 				switch r.IntN(5) {
 				case 0:
